@@ -1463,7 +1463,13 @@ class Compiler(compiler.Compiler):
                                          compiled_members)
 
         if sort_by_tag:
-            compiled_members = sorted(compiled_members, key=attrgetter('tag'))
+            # By class, then by number. A number in more octets is
+            # bigger than any number in fewer octets.
+            compiled_members = sorted(
+                compiled_members,
+                key=lambda member: (member.tag[0] & 0xc0,
+                                    len(member.tag),
+                                    member.tag))
 
         return compiled_members, additions
 
